@@ -101,10 +101,10 @@ CHECKS = {
                      "objects are not used after Close (Close twice is allowed)", "what a reader returns for damaged input is not judged, only the uses that follow"],
         units=[
             dict(run="TestRoundTrip", checks_quick=6000, checks_thorough=150000, shards_thorough=4),
-            dict(run="TestReferenceInterop", checks_quick=2500, checks_thorough=60000, shards_thorough=3),
-            dict(run="TestHistoryIndependence", checks_quick=1300, shards_quick=2, checks_thorough=40000, shards_thorough=6),
-            dict(run="TestConcurrent", checks_quick=800, checks_thorough=15000, shards_thorough=2),
-            dict(run="TestConcurrent", build="race", tier="thorough", checks_thorough=1500, timeout=900),
+            dict(run="TestReferenceInterop", checks_quick=2500, checks_thorough=55000, shards_thorough=3),
+            dict(run="TestHistoryIndependence", checks_quick=1300, shards_quick=2, checks_thorough=28000, shards_thorough=6),
+            dict(run="TestConcurrent", checks_quick=1500, checks_thorough=15000, shards_thorough=2),
+            dict(run="TestConcurrent", build="race", tier="thorough", checks_thorough=1000, timeout=900),
             dict(run="FuzzRoundTrip", fuzz=True, tier="thorough", fuzztime_thorough="120s", timeout=400),
         ],
     ),
@@ -130,5 +130,19 @@ CHECKS = {
               "Non-trivial = at least one batch closed by size and one by timer, or an invalid call; distinct by (limits, mode, balancer, labels)."),
         assumptions=["Message size measure = 4+1+1+8+(4+|key|)+(4+|value|)+varint(nHeaders)+sum(varint|k|+|k|+varint|v|+|v|) as documented in message.go"],
         units=[dict(run="TestSizes", checks_quick=400, checks_thorough=2000, shards_quick=4, shards_thorough=16, timeout=1500)],
+    ),
+    "C02": dict(
+        pkg="props/c02", level="exploration",
+        technique="model-based property testing (rapid): generated partition logs with physical layouts (formats 0/1/2, codecs, compaction holes, empty batches, truncation) and fetch-fault scripts; oracle = reference model of stored records",
+        level_text=("A generated log (logical records with compaction holes; batches of format 0, 1, 2 with every codec, v1 wrappers with relative offsets, batches starting before / ending after their records, retained empty batches, mixed-format logs) "
+                    "is served by the fake broker at fetch v2/v5/v10 with byte limits that force one-batch and truncated responses, optionally dribbled byte by byte. A program of FetchMessage / SetOffset / append steps runs against the real Reader (and bare Conn.ReadBatch) "
+                    "while a fault script cuts responses at a chosen byte, injects NotLeader/UnknownTopic/RequestTimedOut/OffsetOutOfRange codes, moves the leader, drops connections, refuses dials or stalls. "
+                    "Every delivered message is compared as it arrives with the model (offset, key, value, headers, ms timestamp, topic, partition); nothing stored may be skipped, nothing delivered twice or out of order."),
+        level_note="schedules (background fetcher vs. application) are sampled; 'not delivered' is decided by a 10 s watchdog per message on an otherwise idle in-memory broker; trusts the fake broker's fetch semantics (DESIGN A.6)",
+        rule=("case = (fetch version, log layout, reader config, start position, program steps, fault script); non-trivial = layout has >= 2 batches and at least one of {hole, head/tail-compacted batch, empty batch, compression, truncated response, fault, SetOffset, append}; "
+              "distinct by (version, path, start, byte limit, queue, fault multiset, label set)."),
+        assumptions=["control batches are not generated for the Conn/Reader path (the statement reserves hiding them to Client.Fetch)", "format-0/1 compressed wrappers carry contiguous relative inner offsets",
+                     "Reader MaxWait >= 150 ms: its read deadline equals MaxWait and leaves the broker a quarter of it"],
+        units=[dict(run="TestReader", checks_quick=200, checks_thorough=1200, shards_quick=6, shards_thorough=16, timeout=2400)],
     ),
 }
